@@ -23,6 +23,7 @@ static _Atomic int g_done_threads;
 static _Atomic int g_fail;
 static _Atomic int g_stop;
 static _Atomic int g_blocked_forever;
+static _Atomic long g_ops_done;
 
 static const char *KN[] = { "forever", "now", "timed" };
 
@@ -53,9 +54,13 @@ static long do_wait(int kind, uint64_t tmo_ns)
 	uint64_t t0 = now_ns();
 	if (kind == 2) t = dispatch_time(DISPATCH_TIME_NOW, (int64_t)tmo_ns);
 	vrt_api("CallWait", g_obj, kind, 0, 0);
-	if (kind == 0) atomic_fetch_add(&g_blocked_forever, 1);
+	/* any wait may block indefinitely: a poll or timed wait that loses the undo race to a concurrent signal
+	 * falls into the untimed kernel wait ("drain the wakeup") and needs a permit if another waiter took the
+	 * posted one.  Legal under C08 (Semaphore.tla: UndoRead with value >= 0 -> w_ksem); the rescuer below
+	 * therefore watches every wait call, not only the untimed ones. */
+	atomic_fetch_add(&g_blocked_forever, 1);
 	long r = dispatch_semaphore_wait(g_sema, t);
-	if (kind == 0) atomic_fetch_sub(&g_blocked_forever, 1);
+	atomic_fetch_sub(&g_blocked_forever, 1);
 	uint64_t t1 = now_ns();
 	vrt_api("RetWait", g_obj, r != 0, 0, 0);
 	if (r == 0) {
@@ -82,6 +87,7 @@ static void *worker(void *arg)
 			else if (k < 60) do_wait(1, 0);
 			else if (k < 85) do_wait(2, 20000 + (r >> 8) % 300000);
 			else do_wait(0, 0);
+			atomic_fetch_add(&g_ops_done, 1);
 			vrt_progress();
 		}
 		atomic_fetch_add(&g_done_threads, 1);
@@ -148,17 +154,18 @@ int main(int argc, char **argv)
 		atomic_store(&g_succ, 0); atomic_store(&g_done_threads, 0);
 		vrt_mark("Reset", v0, 0, 0);
 		pthread_barrier_wait(&g_bar);
-		/* rescuer: untimed waiters must not be left without a permit forever */
-		int idle = 0, rescues = 0;
+		/* rescuer: a blocked waiter must not be left without a permit forever.  When no client call has
+		 * completed for a while and some thread is inside a wait, add a permit; after NT + 2 such permits
+		 * without any progress every possible waiter has one, so stop and let the watchdog (no progress
+		 * for 20 s) declare the hang - on a correct library the waiter returns and progress resumes. */
+		int idle = 0, consecutive = 0;
+		long last_ops = -1;
 		while (atomic_load(&g_done_threads) < NT) {
 			usleep(500);
-			if (atomic_load(&g_blocked_forever) > 0 && ++idle > 4) {
-				/* every rescue signal adds a permit: after NT * ops of them every untimed
-				 * waiter must have been released, whatever the other threads consumed */
-				if (++rescues > NT * g_ops + 16) {
-					fprintf(stderr, "ORACLE-FAIL C08 untimed waiter not released after %d extra signals\n", rescues);
-					vrt_fatal("Hang", rescues, 71);
-				}
+			long ops_now = atomic_load(&g_ops_done);
+			if (ops_now != last_ops) { last_ops = ops_now; idle = 0; consecutive = 0; continue; }
+			if (atomic_load(&g_blocked_forever) > 0 && ++idle > 6 && consecutive < NT + 2) {
+				consecutive++;
 				do_signal(); idle = 0;
 			}
 		}
